@@ -130,7 +130,7 @@ Theorem C07_no_deadlock_on_locks :
   (forall g js j g', In g gs -> In (Locks.GWait js) g -> In j js -> nth_error gs j = Some g' ->
                      LockSkelOk.pkg_goroutine cls g') ->
   let s := Locks.run (Locks.init gs) sched in
-  forall k t, nth_error s k = Some t -> Locks.todo t <> [] -> Locks.enabled s k = false ->
+  forall k t, nth_error (Locks.ths s) k = Some t -> Locks.todo t <> [] -> Locks.enabled s k = false ->
   exists k', Locks.enabled s k' = true.
 Proof. exact LockSkelOk.scope_locks_no_deadlock. Qed.
 Print Assumptions C07_no_deadlock_on_locks.
@@ -148,3 +148,16 @@ Proof.
     apply andb_true_iff in H. tauto.
 Qed.
 Print Assumptions C07_lock_skeleton_checked.
+
+(* the same goroutines exclude each other as a lock must: in every reachable state a goroutine that
+   holds a lock of the package for writing is its only holder *)
+Theorem C07_locks_mutual_exclusion :
+  forall (cls : nat -> nat) (gs : list (list Locks.gop)) (sched : list nat),
+  (forall g, In g gs -> LockSkelOk.app_goroutine cls g \/ LockSkelOk.pkg_goroutine cls g) ->
+  (forall g js j g', In g gs -> In (Locks.GWait js) g -> In j js -> nth_error gs j = Some g' ->
+                     LockSkelOk.pkg_goroutine cls g') ->
+  let s := Locks.run (Locks.init gs) sched in
+  forall l i j u v, nth_error (Locks.ths s) i = Some u -> nth_error (Locks.ths s) j = Some v ->
+  Locks.holds Locks.W l u = true -> Locks.holds_any l v = true -> i = j.
+Proof. exact LockSkelOk.scope_locks_mutual_exclusion. Qed.
+Print Assumptions C07_locks_mutual_exclusion.
